@@ -10,6 +10,7 @@ import EaselModel.Pipeline.ConstT
 import EaselModel.Dsqdata.FormatLemmas
 import EaselModel.Dsqdata.OpenRejects
 import EaselModel.Dsqdata.SmemLemmas
+import EaselModel.Dsqdata.PackMem
 import EaselModel.Pipeline.Locks
 /-! # C12 — property theorems (statements + glue only; lemmas live in WorkQueue/*.lean, Dsqdata/*.lean)
 
@@ -181,6 +182,21 @@ theorem codec_pack_in_place (d : List UInt8) :
     · exact Or.inl h
     · exact Or.inr (by omega)
 
+/-- **`codec_pack_smem`: packing in place at BYTE level is the functional packer** (`esl_dsqdata_Write` calls
+    `dsqdata_pack5/2(sq->dsq, sq->n, (uint32_t *) sq->dsq, &P)`). `packMem` runs the packers on the byte buffer itself - residue `i`
+    read from byte `i` of the CURRENT contents, packet `j` stored into bytes `4j … 4j+3` of the same buffer, every store
+    bounds-checked. For every sequence `d` (any codes, `n = 0` included) in a buffer of at least 4 bytes (`dsq[0 … n+1]` plus
+    whatever slack `salloc` leaves): no store leaves the buffer, no residue is overwritten before it is read, and the first `4·P`
+    bytes are exactly the packets `pack5 d` / `pack2 d` in native byte order, `P` their number. -/
+theorem codec_pack_smem (amino : Bool) (d slack : List UInt8) (h4 : 4 ≤ (dsqBuffer d slack).length) :
+    ∃ mem', packMem amino (dsqBuffer d slack) d.length = some (mem', (pk amino d).length) ∧
+      mem'.take (4 * (pk amino d).length) = (pk amino d).flatMap enc32 ∧ mem'.length = (dsqBuffer d slack).length :=
+  packMem_correct amino d slack h4
+
+/-- the 4-byte minimum is needed (`ESL_DASSERT1(sq->salloc >= 4)`): a one-residue sequence in a 3-byte buffer stores outside it -/
+example : packMem true (dsqBuffer [7] []) 1 = none := by decide +kernel
+example : (packMem false (dsqBuffer [0, 1, 2, 3, 0, 1, 2, 3, 0, 1, 2, 3, 0, 1, 2, 15] []) 16).map (·.2) = some 2 := by decide +kernel
+
 /-- **Unpacking in place never overwrites an unread packet** (`dsqdata_unpack_chunk` unpacks inside `smem`, the packed
     data having been read to its end: `psq = smem + U - 4·maxpacket`). For ANY packet contents (`packetResidues` is what
     `dsqdata_unpack5` / `unpack2` emit for a packet - `unpack_head_eod`, `unpack_head_more`), every chunk with at most
@@ -331,6 +347,17 @@ theorem dsq_bytes_round_trip (tag alphatype : Nat) (fname fmt : List UInt8) (db 
   obtain ⟨f, hw, ho⟩ := openDb_writeDb tag alphatype fname fmt db hty hlen expect hexp
   obtain ⟨out, hr, ht⟩ := readDb_written tag alphatype db maxseq maxpacket hwf hms hfit h1 h2
   exact ⟨f, _, out, hw, ho, hr, by simpa using tiles_flatten_db _ db maxseq maxpacket out 0 ht, ht⟩
+
+/-- **… and every chunk unpacks IN PLACE.** Each chunk `c` the byte-level loader delivers for the written database (`Tiles`, from
+    `dsq_bytes_round_trip`), placed in the buffer `dsqdata_chunk_Create` makes for the reader's `(chunk_maxpacket, chunk_maxseq)` -
+    whatever a recycled buffer still holds (`fill`) - is unpacked by the byte-level `dsqdata_unpack_chunk` without leaving the
+    buffer or overwriting an unread packet, to exactly the residues of its records: `smem` = sentinel, sequence, sentinel, … -/
+theorem dsq_chunks_unpack_in_place (amino : Bool) (db : List SeqRec) (maxseq : Nat) (maxpacket : Int) (hwf : ∀ r ∈ db, r.Wf)
+    (fill : UInt8) (out : List (BChunk × List SeqRec)) (ht : Tiles amino db maxseq maxpacket 0 out) :
+    ∀ c ∈ out, ∃ mem', unpackChunkMem amino (loadedSmem amino maxpacket.toNat maxseq c.1.psq fill)
+          (chunkPsqOff amino maxpacket.toNat maxseq) c.1.pn = some (mem', segsOf 0 (c.2.map (·.dsq))) ∧
+        mem'.take (smemLayout (c.2.map (·.dsq))).length = smemLayout (c.2.map (·.dsq)) :=
+  tiles_unpack_in_place amino db maxseq maxpacket hwf fill out 0 ht
 
 /-- with the library's own limits (`eslDSQDATA_CHUNK_MAXSEQ`, `eslDSQDATA_CHUNK_MAXPACKET`) the hypothesis "`maxpacket` holds
     the longest packed sequence" is the writer's guarantee `L < 6 · eslDSQDATA_CHUNK_MAXPACKET` -/
@@ -629,6 +656,13 @@ theorem pipe_lock_discipline {U T C : Nat} (hU : 0 < U) {s s' : Pipeline.Sys} (h
     (∀ u, l ≠ .unpacker u → (s'.lane u).upc = (s.lane u).upc) :=
   let i := Pipeline.reachable_inv hU h
   ⟨Pipeline.step_frame s s' l i hs, Pipeline.step_private s s' l i hs⟩
+
+/-- non-vacuity of `pipe_lock_discipline`: the loader's third step (putting chunk 0 into inbox 0) holds exactly `inbox_mutex[0]`,
+    a consumer's `Read` holds `nchunk_mutex` and the outbox mutex of the lane it reads, creating a chunk holds nothing -/
+example : Pipeline.held (Pipeline.Sys.create 2 3 2) .loader = [] ∧
+    (∃ s, Pipeline.run (Pipeline.Sys.create 2 3 2) [.loader, .loader] = some s ∧ Pipeline.held s .loader = [.inbox 0]) ∧
+    Pipeline.held (Pipeline.Sys.create 2 3 2) (.read 7) = [.nchunk, .outbox 0] := by
+  refine ⟨by decide, ⟨_, rfl, by decide⟩, by decide⟩
 
 /-- non-vacuity: after the run of the example above, buffer 0 is on the recycling stack, buffer 1 with consumer 8, buffer 2
     in the loader's hands, buffer 3 does not exist yet -/
